@@ -127,6 +127,7 @@ Inductive ev :=
   | EvPre (id : nat)                     (* a registry round invoked _precompute of object id *)
   | EvSub (id : nat) (cls : string)      (* object id subscribed *)
   | EvObs (id : nat) (fresh : bool)      (* evaluation: does the object hold what a fresh one would *)
+  | EvAllObs (fresh : bool)               (* evaluation of every live object: do they all hold what fresh ones would *)
   | EvShape (id : nat) (shape : nat).
 
 Inductive tree := T (cls : string) (mattr : string) (active sub : bool) (shape : nat) (kids : list tree).
@@ -135,6 +136,7 @@ Inductive op :=
   | Create (t : tree)
   | Delete (stamp : nat)
   | Eval (id : nat)
+  | EvalAll                                  (* evaluate every live object *)
   | CallInterp (id : nat) (shape : nat).
 
 (* ---------- attribute store ---------- *)
@@ -318,6 +320,9 @@ Definition step (F : list cfacts) (s : state) (o : op) : state * list ev :=
   | Eval id => (s, match nth_error (heap s) id with
                    | Some o => [EvObs id (obs_eqb (eval s id) (fresh_obs (o_cls o) (cur_tl s) (o_active o) (o_shape o)))]
                    | None => [] end)
+  | EvalAll => (s, [EvAllObs (forallb (fun id => match nth_error (heap s) id with
+                                                 | Some o => negb (o_live o) || obs_eqb (eval s id) (fresh_obs (o_cls o) (cur_tl s) (o_active o) (o_shape o))
+                                                 | None => true end) (seq 0 (length (heap s))))])
   | CallInterp id sh => let s' := call_interp s id sh in
                         (s', match nth_error (heap s') id with Some o => [EvShape id (o_shape o)] | None => [] end)
   end.
